@@ -837,7 +837,7 @@ pub fn bech_app() -> AppOf<cw_multi_test::MockApiBech32> {
     AppBuilder::new().with_api(cw_multi_test::MockApiBech32::new("juno")).build(cw_multi_test::no_init)
 }
 
-fn compute_sym_bech(app: &AppOf<cw_multi_test::MockApiBech32>, sym: &str) -> Option<String> {
+fn compute_sym_with<A: Api>(app: &AppOf<A>, sym: &str, make: &dyn Fn(&str) -> String) -> Option<String> {
     if let Some(rest) = sym.strip_prefix('c') {
         if let Some((c, i)) = rest.split_once('_') {
             if let (Ok(c), Ok(i)) = (c.parse::<u64>(), i.parse::<u64>()) {
@@ -849,33 +849,86 @@ fn compute_sym_bech(app: &AppOf<cw_multi_test::MockApiBech32>, sym: &str) -> Opt
         return Some(cosmwasm_std::testing::MockApi::default().addr_make("creator").to_string());
     }
     if sym.starts_with('u') || sym.starts_with('n') {
-        return Some(app.api().addr_make(sym).to_string());
+        return Some(make(sym));
     }
     None
+}
+
+fn compute_sym_bech(app: &AppOf<cw_multi_test::MockApiBech32>, sym: &str) -> Option<String> {
+    compute_sym_with(app, sym, &|s| app.api().addr_make(s).to_string())
+}
+
+fn compute_sym_bechm(app: &AppOf<cw_multi_test::MockApiBech32m>, sym: &str) -> Option<String> {
+    compute_sym_with(app, sym, &|s| app.api().addr_make(s).to_string())
 }
 
 pub fn exec_wasm_bech(lines: &[String]) -> Vec<String> {
     exec_wasm_on(vec![bech_app(), bech_app(), bech_app()], compute_sym_bech, lines)
 }
 
+/// App whose Api is the crate's own `MockApiBech32m` with the SAME prefix `juno`
+pub fn bechm_app() -> AppOf<cw_multi_test::MockApiBech32m> {
+    AppBuilder::new().with_api(cw_multi_test::MockApiBech32m::new("juno")).build(cw_multi_test::no_init)
+}
+
+/// Slice `wasm-bech-mix` (C19: "nothing depends on what other application instances in the same process have
+/// done", here instances of a *different configuration*): the case is run (a) on fresh Bech32m Apps in a fresh
+/// thread — the reference —, (b) on Bech32 Apps with the same prefix in this thread (discarded), (c) on fresh
+/// Bech32m Apps in this thread. The transcript of (c) is what is compared with the model; if it differs from
+/// (a) anywhere, an implementation-only line `!nondet …` is appended to the last op's output.
+pub fn exec_wasm_bech_mix(lines: &[String]) -> Vec<String> {
+    let owned: Vec<String> = lines.to_vec();
+    let reference = std::thread::spawn(move || {
+        exec_wasm_on(vec![bechm_app(), bechm_app(), bechm_app()], compute_sym_bechm, &owned)
+    })
+    .join()
+    .ok();
+    // the same history with the addresses of the other variant: binds are recomputed by the executor, results discarded
+    let _ = crate::util::guarded(|| exec_wasm_on(vec![bech_app(), bech_app(), bech_app()], compute_sym_bech, lines));
+    let mut out = exec_wasm_on(vec![bechm_app(), bechm_app(), bechm_app()], compute_sym_bechm, lines);
+    let verdict = match reference {
+        None => Some("!nondet reference run in a fresh thread panicked".to_string()),
+        Some(r) => r.iter().zip(out.iter()).position(|(a, b)| a != b).map(|k| {
+            let cut = |x: &String| x.chars().take(160).collect::<String>();
+            format!("!nondet op={} fresh-thread=`{}` after-other-variant=`{}`", k, cut(&r[k]), cut(&out[k]))
+        }),
+    };
+    // the generator ends every case of this slice with the op `nondet`, whose answer is implementation-only
+    if let Some(v) = verdict {
+        match lines.iter().rposition(|l| l == "nondet") {
+            Some(k) if k < out.len() => out[k] = v,
+            _ => out.push(v),
+        }
+    }
+    out
+}
+
+/// re-declares the `bind*` lines of a generated case with the addresses of the Bech32m App
+pub fn rebind_bechm(lines: Vec<String>) -> Vec<String> {
+    rebind_with(&bechm_app(), compute_sym_bechm, lines)
+}
+
 /// re-declares the `bind*` lines of a generated case with the addresses of the Bech32 App
 pub fn rebind_bech(lines: Vec<String>) -> Vec<String> {
-    let app = bech_app();
+    rebind_with(&bech_app(), compute_sym_bech, lines)
+}
+
+fn rebind_with<A: Api>(app: &AppOf<A>, sym_fn: fn(&AppOf<A>, &str) -> Option<String>, lines: Vec<String>) -> Vec<String> {
     let mut syms: HashMap<String, String> = HashMap::new();
     let mut out = vec![];
     for l in lines {
         let t: Vec<&str> = l.split(' ').collect();
         if t[0] == "bind" && t.len() >= 3 {
-            let r = compute_sym_bech(&app, t[1]).unwrap_or_else(|| t[2].to_string());
+            let r = sym_fn(app, t[1]).unwrap_or_else(|| t[2].to_string());
             syms.insert(t[1].to_string(), r.clone());
             out.push(format!("bind {} {}", t[1], r));
         } else if t[0] == "bind2" && t.len() >= 5 {
             let creator = syms.get(t[2]).cloned().unwrap_or_else(|| t[2].to_string());
-            let r = salted_addr(&app, &default_checksum(t[1].parse().unwrap_or(0)), &creator, &unhex(t[3]));
+            let r = salted_addr(app, &default_checksum(t[1].parse().unwrap_or(0)), &creator, &unhex(t[3]));
             out.push(format!("bind2 {} {} {} {}", t[1], t[2], t[3], r));
         } else if t[0] == "bind2x" && t.len() >= 5 {
             let creator = syms.get(t[2]).cloned().unwrap_or_else(|| t[2].to_string());
-            let r = salted_addr(&app, &unhex(t[1]), &creator, &unhex(t[3]));
+            let r = salted_addr(app, &unhex(t[1]), &creator, &unhex(t[3]));
             out.push(format!("bind2x {} {} {} {}", t[1], t[2], t[3], r));
         } else {
             out.push(l);
@@ -1167,6 +1220,8 @@ fn exec_wasm_on<A: Api>(mut apps: Vec<AppOf<A>>, sym_fn: fn(&AppOf<A>, &str) -> 
             ),
             "dump" => dump(app),
             "rawhash" => raw_hash(app),
+            // verdict slot of slice wasm-bech-mix (filled in by exec_wasm_bech_mix)
+            "nondet" => "!det".into(),
             "trace" => TRACE.with(|t| {
                 let v = std::mem::take(&mut t.borrow_mut()[cur]);
                 format!("trace[{}]", v.join(" || "))
